@@ -214,6 +214,34 @@ impl Leg for Runs {
 }
 
 // ---------------------------------------------------------------------------------------------
+// large inputs: tens of thousands of distinct k-mers per partition table and chunk file
+
+pub struct Large;
+impl Leg for Large {
+    type Case = Case;
+    const NAME: &'static str = "large-inputs";
+    fn strategy(tier: Tier) -> BoxedStrategy<Case> {
+        let nrec = tier.pick(60usize, 200);
+        (prop_oneof![2 => 11usize..=16, 1 => 17usize..=31], prop_oneof![2 => Just(1usize), 2 => Just(2usize), 1 => 3usize..=8], prop::sample::select(vec![1usize, 1, 2, 3]), any::<bool>())
+            .prop_flat_map(move |(k, threads, chunks, acgt)| {
+                let p = RecParams { max_records: nrec, scale: k, max_len: 700, degenerate_w: 0, bounds: [k, 0, 0], nuc_only: false };
+                (proptest::collection::vec(gen::seq(k, 700, true), nrec / 2..=nrec), Just(p)).prop_map(move |(seqs, _p)| {
+                    let recs: Vec<Rec> = seqs.into_iter().enumerate().map(|(i, s)| Rec { id: format!("r{}", i), desc: None, seq: Bytes(s) }).collect();
+                    Case { recs, cont: Container::plain_fasta(), k, threads, chunks, acgt, sched: Sched::Free }
+                })
+            })
+            .boxed()
+    }
+    fn check(c: &Case) -> Verdict {
+        let mut v = check_case(c);
+        let distinct: std::collections::HashSet<u64> = c.recs.iter().flat_map(|r| model::canonical_stream(&r.seq, c.k)).collect();
+        v.class(match distinct.len() { 0..=4096 => "distinct<=4096", 4097..=20000 => "distinct<=20000", _ => "distinct>20000" });
+        v.nontrivial = distinct.len() > 4096;
+        v
+    }
+}
+
+// ---------------------------------------------------------------------------------------------
 // contention stress: all workers hit the same few keys
 
 #[derive(Clone, Debug, Serialize, Deserialize)]
@@ -340,6 +368,8 @@ pub fn run(ctx: &mut Ctx) {
     let n = ctx.share(ctx.tier.pick(64, 1_500));
     ctx.run_leg::<Stress>(n, true, 40);
     let n = ctx.share(ctx.tier.pick(48, 800));
+    ctx.run_leg::<Large>(n, true, 30);
+    let n = ctx.share(ctx.tier.pick(48, 800));
     ctx.run_leg::<Enum>(n, true, 40);
     let (s, complete, trunc) = SCHEDULES.with(|s| s.get());
     ctx.out.extra.insert("schedules_enumerated".into(), serde_json::json!(s));
@@ -351,6 +381,7 @@ pub fn replay(leg: &str, case: &serde_json::Value) -> Option<Result<Verdict, Str
     match leg {
         "runs" => Some(crate::engine::replay_leg::<Runs>(case)),
         "contention-stress" => Some(crate::engine::replay_leg::<Stress>(case)),
+        "large-inputs" => Some(crate::engine::replay_leg::<Large>(case)),
         "sched-enum" => Some(crate::engine::replay_leg::<Enum>(case)),
         _ => None,
     }
